@@ -21,13 +21,14 @@ func configs(thorough bool) []config {
 		log2  uint64
 		buddy bool
 	}
-	vars := []variant{{16, false}, {14, false}, {12, false}, {12, true}}
-	d := func(quick, deep int) int {
-		if thorough {
-			return deep
-		}
-		return quick
-	}
+	vars := []variant{{16, false}, {12, true}, {14, false}, {12, false}} // cheapest first: under a time budget the dear ones are cut
+	// depth table: [slice] -> {quick, thorough} for the variant class.
+	// "wide" = 64 KiB pages and the buddy allocator (a transition costs 1-2 ms),
+	// "dear" = 16 KiB and 4 KiB pages with the default allocator (the CPU device
+	// of a fresh driver owns 256K / 1M frames, a transition costs 8 / 17 ms).
+	type dq struct{ quick, deep int }
+	wide := map[string]dq{"A": {5, 7}, "B": {4, 5}, "C": {4, 5}, "D": {4, 7}, "E": {4, 6}, "F": {5, 8}, "G": {2, 3}}
+	dear := map[string]dq{"A": {4, 6}, "B": {3, 4}, "C": {3, 4}, "D": {4, 6}, "E": {4, 5}, "F": {5, 7}, "G": {2, 2}}
 	for _, v := range vars {
 		// sizes of the GPUs: the buddy allocator needs powers of two
 		g1 := []int{4}
@@ -37,40 +38,47 @@ func configs(thorough bool) []config {
 			g2 = []int{4, 8}
 			g3 = []int{4, 8, 8}
 		}
-		light := v.log2 == 12 && !thorough // 4 KiB pages make driver construction ~10x dearer (1M CPU frames)
-		sub := func(n int) int {
-			if light {
-				return n - 1
+		d := func(slice string) int {
+			t := wide
+			if v.log2 < 16 && !v.buddy {
+				t = dear
 			}
-			return n
+			if thorough {
+				return t[slice].deep
+			}
+			return t[slice].quick
 		}
 		// A: allocate / free on one GPU and the unified device, one process
 		add(config{Name: "alloc-free-1gpu", Log2Page: v.log2, Buddy: v.buddy, GPUPages: g1, Unified: []int{1}, PreCtx: []int{0},
-			Depth: sub(d(5, 7)), AllocDevs: []int{1, 2}, AllocSizes: allSizes, UnifiedSizes: []int{sz1Page, szPagePlus1}, Free: true, GC: true})
+			Depth: d("A"), AllocDevs: []int{1, 2}, AllocSizes: allSizes, UnifiedSizes: []int{sz1Page, szPagePlus1}, Free: true, GC: true})
 		// B: CPU + two GPUs + unified, one process
 		add(config{Name: "alloc-free-cpu-2gpu", Log2Page: v.log2, Buddy: v.buddy, GPUPages: g2, Unified: []int{1, 2}, PreCtx: []int{0},
-			Depth: sub(d(4, 6)), AllocDevs: []int{0, 1, 2, 3}, AllocSizes: []int{sz1Page, sz3Pages, szPagePlus1}, Free: true})
+			Depth: d("B"), AllocDevs: []int{0, 1, 2, 3}, AllocSizes: []int{sz1Page, sz3Pages, szPagePlus1}, Free: true})
 		// C: remap of every sub-range to every real device
 		add(config{Name: "remap", Log2Page: v.log2, Buddy: v.buddy, GPUPages: g2, Unified: []int{1, 2}, PreCtx: []int{0},
-			Depth: sub(d(4, 6)), AllocDevs: []int{1, 0}, AllocSizes: []int{sz1Page, sz3Pages}, Free: true,
+			Depth: d("C"), AllocDevs: []int{1, 0}, AllocSizes: []int{sz1Page, sz3Pages}, Free: true,
 			RemapDevs: []int{0, 1, 2}, RemapRanges: "all", MaxBufs: 3})
 		// D: distribute over GPU lists
 		add(config{Name: "distribute", Log2Page: v.log2, Buddy: v.buddy, GPUPages: g3, Unified: []int{1, 2, 3}, PreCtx: []int{0},
-			Depth: sub(d(4, 6)), AllocDevs: []int{1}, AllocSizes: []int{sz2Pages, sz3Pages, sz1Byte, szPagePlus1}, Free: true,
+			Depth: d("D"), AllocDevs: []int{1}, AllocSizes: []int{sz2Pages, sz3Pages, sz1Byte, szPagePlus1}, Free: true,
 			GPULists: [][]int{{1, 2}, {2, 1}, {1, 2, 3}, {2, 3}, {3}}, DistVariants: []int{distWhole, distFirstPage1}, MaxBufs: 3})
 		// E: migration preparation
 		add(config{Name: "migrate", Log2Page: v.log2, Buddy: v.buddy, GPUPages: g2, Unified: []int{1, 2}, PreCtx: []int{0},
-			Depth: sub(d(4, 6)), AllocDevs: []int{1, 3}, AllocSizes: []int{sz1Page, sz2Pages}, UnifiedSizes: []int{sz2Pages}, Free: true,
+			Depth: d("E"), AllocDevs: []int{1, 3}, AllocSizes: []int{sz1Page, sz2Pages}, UnifiedSizes: []int{sz2Pages}, Free: true,
 			MigrateGPUs: []int{1, 2}, MaxBufs: 3})
 		// F: two processes and contexts sharing a process, created by Init calls inside the history
 		add(config{Name: "two-processes", Log2Page: v.log2, Buddy: v.buddy, GPUPages: g2, Unified: []int{1, 2},
-			MaxProcs: 2, MaxCtx: 3, Depth: sub(d(5, 7)), AllocDevs: []int{1}, AllocSizes: []int{sz1Page, sz2Pages}, Free: true, GC: true,
+			MaxProcs: 2, MaxCtx: 3, Depth: d("F"), AllocDevs: []int{1}, AllocSizes: []int{sz1Page, sz2Pages}, Free: true, GC: true,
 			RemapDevs: []int{2}, RemapRanges: "whole", MaxBufs: 3})
 		// G: everything at once, shallow
 		add(config{Name: "full-alphabet", Log2Page: v.log2, Buddy: v.buddy, GPUPages: g2, Unified: []int{1, 2}, PreCtx: []int{0, 1},
-			MaxProcs: 2, MaxCtx: 3, Depth: sub(d(3, 4)), AllocDevs: []int{0, 1, 2, 3}, AllocSizes: allSizes, UnifiedSizes: []int{sz1Page, szPagePlus1},
+			MaxProcs: 2, MaxCtx: 3, Depth: d("G"), AllocDevs: []int{0, 1, 2, 3}, AllocSizes: allSizes, UnifiedSizes: []int{sz1Page, szPagePlus1},
 			Free: true, GC: true, RemapDevs: []int{0, 1, 2}, RemapRanges: "all", GPULists: [][]int{{1, 2}, {2, 1}, {2}},
 			DistVariants: []int{distWhole, distFirstPage1}, MigrateGPUs: []int{1, 2}})
 	}
+	// outside the valid alphabet: Remap onto the unified device (no shipped
+	// caller does it); observations only
+	add(config{Name: "remap-onto-unified-device(informational)", Log2Page: 16, GPUPages: []int{5, 6}, Unified: []int{1, 2}, PreCtx: []int{0},
+		Depth: 3, AllocDevs: []int{1}, AllocSizes: []int{sz1Page, sz2Pages}, RemapDevs: []int{3}, RemapRanges: "all", MaxBufs: 2, Informational: true})
 	return out
 }
